@@ -99,7 +99,7 @@ class Ctx:
         rc = 0
         for sig, (text, case) in sorted(self.known_hit.items()):
             print('KNOWN-FINDING: property=%s %s [signature %s]' % (self.pid, text, sig))
-        rdir = os.path.join(VERIF, 'replay', self.pid)
+        rdir = os.path.join(VERIF, 'build', 'scratch-evidence', 'replay', self.pid) if os.environ.get('VERIF_REPO') else os.path.join(VERIF, 'replay', self.pid)
         if self.violations:
             os.makedirs(rdir, exist_ok=True)
         for i, (sig, (case, text)) in enumerate(sorted(self.violations.items())):
